@@ -17,6 +17,7 @@ import (
 // ---------------------------------------------------------------------------
 
 type Obligation struct {
+	Seq    int      // position in program order
 	Ret    *retInfo // for ensures obligations: the return they were generated at
 	Origin string
 	Name   string // stable name: unit#kind#detail
@@ -34,7 +35,9 @@ type Gen struct {
 	P     *Program
 	Unit  string
 	decls []string
-	asms  []string
+	asms  []asmRec
+	seq   int // program order of assumptions and obligations
+	asmSeqOverride int // when >0, new assumptions take this sequence number (instances of earlier hypotheses)
 	Obls  []*Obligation
 	ctr   int
 	Notes map[string]bool // abstractions, trusted contracts used, assumptions
@@ -64,10 +67,30 @@ type Gen struct {
 	verWM     map[string]string // heap version -> allocation watermark when it was created
 	curOrigin string            // "" = program; otherwise the goal being evaluated
 	originCtr int
-	privAsms  map[string][]string // origin -> assumptions private to that goal
+	privAsms  map[string][]asmRec // origin -> assumptions private to that goal
 }
 
 type namedTerm struct{ term, origin string }
+
+// asmRec: an assumption with its position in program order. An obligation may
+// only use assumptions made before it (otherwise the "assume what was just
+// checked" facts of later - or the same - checks would make it vacuous).
+type asmRec struct {
+	seq  int
+	text string
+}
+
+func (g *Gen) addAsm(text string) {
+	g.seq++
+	sq := g.seq
+	if g.asmSeqOverride > 0 {
+		sq = g.asmSeqOverride
+	}
+	g.asms = append(g.asms, asmRec{sq, text})
+}
+
+// axiom: valid in every state, usable by every obligation
+func (g *Gen) addAxiom(text string) { g.asms = append(g.asms, asmRec{0, text}) }
 
 func (g *Gen) beginGoal() string {
 	g.originCtr++
@@ -135,7 +158,7 @@ func (g *Gen) logRead(fam, base, off, rel, idx string) {
 func (g *Gen) instantiate(rounds int) int {
 	total := 0
 	if g.privAsms == nil {
-		g.privAsms = map[string][]string{}
+		g.privAsms = map[string][]asmRec{}
 	}
 	type cand struct{ term, origin string }
 	for r := 0; r < rounds; r++ {
@@ -225,12 +248,16 @@ func (g *Gen) instantiate(rounds int) int {
 						}
 					}()
 					g.curOrigin = tup.origin
+					// the instance is a consequence of a hypothesis assumed at qh.seq
+					saveOv := g.asmSeqOverride
+					g.asmSeqOverride = qh.seq
+					defer func() { g.asmSeqOverride = saveOv }()
 					t := env.evalBool(qh.body)
 					if tup.origin == "" {
 						g.assume(qh.guard, t)
 					} else {
 						for _, c := range splitAnd(t) {
-							g.privAsms[tup.origin] = append(g.privAsms[tup.origin], sImp(qh.guard, c))
+							g.privAsms[tup.origin] = append(g.privAsms[tup.origin], asmRec{qh.seq, sImp(qh.guard, c)})
 						}
 					}
 					added++
@@ -290,7 +317,7 @@ func (g *Gen) assume(reach, fact string) {
 		if c == "true" {
 			continue
 		}
-		g.asms = append(g.asms, sImp(reach, c))
+		g.addAsm(sImp(reach, c))
 	}
 }
 
@@ -380,7 +407,8 @@ func (g *Gen) declareUF(name string, sig string) {
 
 func (g *Gen) oblige(kind, reach, goal string, pos token.Position, desc string) *Obligation {
 	g.kindCtr[kind]++
-	o := &Obligation{Kind: kind, Reach: reach, Goal: goal, Pos: pos, Desc: desc, Origin: g.curOrigin}
+	g.seq++
+	o := &Obligation{Kind: kind, Reach: reach, Goal: goal, Pos: pos, Desc: desc, Origin: g.curOrigin, Seq: g.seq}
 	o.Name = fmt.Sprintf("%s#%s#%d", g.Unit, kind, g.kindCtr[kind])
 	g.Obls = append(g.Obls, o)
 	return o
@@ -640,6 +668,8 @@ func (g *Gen) zeroScalar(t types.Type) string {
 
 func (g *Gen) zero(t types.Type) *SVal {
 	switch kindOf(t) {
+	case KEmpty:
+		return &SVal{T: t, K: KEmpty}
 	case KSlice:
 		z := scalar(tInt, KInt, bv64(0))
 		return &SVal{T: t, K: KSlice, Sub: []*SVal{z, z, z, z}}
@@ -675,6 +705,9 @@ func (g *Gen) iteVal(c string, a, b *SVal) *SVal {
 	if a == b {
 		return a
 	}
+	if a.K == KEmpty {
+		return a
+	}
 	if len(a.Sub) > 0 || a.K == KStruct || a.K == KTuple {
 		v := &SVal{T: a.T, K: a.K}
 		for i := range a.Sub {
@@ -702,6 +735,9 @@ func (g *Gen) iteVal(c string, a, b *SVal) *SVal {
 func (g *Gen) nameVal(hint string, v *SVal) *SVal {
 	if v == nil {
 		return nil
+	}
+	if v.K == KEmpty {
+		return v
 	}
 	if len(v.Sub) > 0 || v.K == KStruct || v.K == KTuple {
 		n := &SVal{T: v.T, K: v.K, Prov: v.Prov}
@@ -881,6 +917,8 @@ func (g *Gen) provOf(p *SVal, t types.Type) *Prov {
 // load reads a value of type t through pointer p.
 func (g *Gen) load(st *State, p *SVal, t types.Type) *SVal {
 	switch kindOf(t) {
+	case KEmpty:
+		return &SVal{T: t, K: KEmpty}
 	case KStruct:
 		s := structOf(t)
 		v := &SVal{T: t, K: KStruct}
@@ -894,6 +932,18 @@ func (g *Gen) load(st *State, p *SVal, t types.Type) *SVal {
 			panic(unsupported("whole-array load of " + t.String()))
 		}
 		h := g.heapGet(st, elemFam(a.Elem()), g.elemHeapSort(a.Elem()))
+		if p.Off != "" {
+			if a.Len() > 64 {
+				panic(unsupported("whole-array load at an offset (array longer than 64)"))
+			}
+			src := g.define("arrsrc", arrSort(SBV64, g.W.scalarSort(a.Elem())), sSel(h, p.Term))
+			off := g.define("arroff", SBV64, p.Off)
+			tm := fmt.Sprintf("((as const %s) %s)", g.W.scalarSort(t), g.zeroScalar(a.Elem()))
+			for i := int64(0); i < a.Len(); i++ {
+				tm = sStore(tm, bv64(i), sSel(src, sApp("bvadd", off, bv64(i))))
+			}
+			return scalar(t, KArray, tm)
+		}
 		return scalar(t, KArray, sSel(h, p.Term))
 	}
 	pr := g.provOf(p, t)
@@ -916,6 +966,8 @@ func (g *Gen) load(st *State, p *SVal, t types.Type) *SVal {
 // store writes v through pointer p.
 func (g *Gen) store(st *State, p *SVal, t types.Type, v *SVal) {
 	switch kindOf(t) {
+	case KEmpty:
+		return
 	case KStruct:
 		s := structOf(t)
 		for i := 0; i < s.NumFields(); i++ {
@@ -929,6 +981,19 @@ func (g *Gen) store(st *State, p *SVal, t types.Type, v *SVal) {
 		}
 		srt := g.elemHeapSort(a.Elem())
 		h := g.heapGet(st, elemFam(a.Elem()), srt)
+		if p.Off != "" {
+			if a.Len() > 64 {
+				panic(unsupported("whole-array store at an offset (array longer than 64)"))
+			}
+			dst := sSel(h, p.Term)
+			off := g.define("arroff", SBV64, p.Off)
+			val := g.define("arrval", g.W.scalarSort(t), v.Term)
+			for i := int64(0); i < a.Len(); i++ {
+				dst = sStore(dst, sApp("bvadd", off, bv64(i)), sSel(val, bv64(i)))
+			}
+			g.heapSet(st, elemFam(a.Elem()), srt, sStore(h, p.Term, dst))
+			return
+		}
 		g.heapSet(st, elemFam(a.Elem()), srt, sStore(h, p.Term, v.Term))
 		return
 	}
@@ -959,6 +1024,8 @@ func (g *Gen) store(st *State, p *SVal, t types.Type, v *SVal) {
 // zeroInit stores the zero value of t at address p (new objects).
 func (g *Gen) zeroInit(st *State, p *SVal, t types.Type) {
 	switch kindOf(t) {
+	case KEmpty:
+		return
 	case KStruct:
 		s := structOf(t)
 		for i := 0; i < s.NumFields(); i++ {
